@@ -52,6 +52,7 @@ from spyne.model.binary import binary_decoding_handlers, BINARY_ENCODING_USE_DEF
 from spyne.util import six
 from spyne.model.enum import EnumBase
 from spyne.model.primitive.datetime import TIME_PATTERN, DATE_PATTERN
+from spyne.model.primitive.number import num_str_len
 
 from spyne.util.cdict import cdict
 
@@ -348,7 +349,7 @@ class InProtocolBase(ProtocolMixin):
 
     def decimal_from_unicode(self, cls, string):
         cls_attrs = self.get_cls_attrs(cls)
-        if cls_attrs.max_str_len is not None and len(string) > \
+        if cls_attrs.max_str_len is not None and num_str_len(string) > \
                                                      cls_attrs.max_str_len:
             raise ValidationError(string, "Decimal %%r longer than %d "
                                           "characters" % cls_attrs.max_str_len)
@@ -373,7 +374,7 @@ class InProtocolBase(ProtocolMixin):
 
         if isinstance(string, (six.text_type, six.binary_type)) and \
                                     cls_attrs.max_str_len is not None and \
-                                    len(string) > cls_attrs.max_str_len:
+                                    num_str_len(string) > cls_attrs.max_str_len:
             raise ValidationError(string,
                                          "Integer %%r longer than %d characters"
                                                         % cls_attrs.max_str_len)
